@@ -24,7 +24,7 @@ def shard(i, n, args):
     # (on another converter) before any attribute is judged - a per-process or per-shape cache shared
     # between classes must not leak one class's rule into another (the shards split the classes)
     warm = py.cv.get_converter()
-    order = py.roots(("S", "REQ", "RESP", "NOTIF", "AND"))
+    order = py.roots(("S", "REQ", "RESP", "NOTIF", "AND", "ERR"))
     if i % 2:
         order = order[::-1]
     for root in order:
@@ -38,7 +38,7 @@ def shard(i, n, args):
             res["warmup"] = res.get("warmup", 0) + 1
         except Exception:
             pass
-    for root in ctx.select_roots(py, i, n, kinds=("S", "REQ", "RESP", "NOTIF", "AND")):
+    for root in ctx.select_roots(py, i, n, kinds=("S", "REQ", "RESP", "NOTIF", "AND", "ERR")):
         if root.cls is None:
             continue
         ob = mm.obj_props(root.t)
@@ -51,7 +51,7 @@ def shard(i, n, args):
             na = null_admitting(p["type"])
             is_lit = p["type"]["kind"] == "stringLiteral"
             optional = bool(p.get("optional"))
-            envelope_always = root.kind in ("REQ", "NOTIF", "RESP") and pn in ("method", "jsonrpc") or (root.kind == "RESP" and pn == "result")
+            envelope_always = root.kind in ("REQ", "NOTIF", "RESP", "ERR") and pn in ("method", "jsonrpc") or (root.kind == "RESP" and pn == "result")
             has_default = optional or na or is_lit
             cat = "null-admitting" if na else "literal" if is_lit else "optional" if optional else "required"
             res["kinds"][cat] = res["kinds"].get(cat, 0) + 1
